@@ -108,6 +108,14 @@ def rendering(repo, chk, rule='C09.M1'):
         ('IndirectByte.get', lambda: asm['IndirectByte'](S.STATE, St(fp), IL(-3)).get(r0), ([repr(asm['Lbso'](r0, St(fp), IL(-3)))], repr(St(r0)))),
         ('IndirectByte.set', lambda: asm['IndirectByte'](S.STATE, St(fp), IL(-3)).set(IL(9)), ([repr(asm['Sbso'](St(fp), IL(-3), IL(9)))], 'None')),
         ('Indirect(CONST).get', lambda: asm['Indirect'](S.CONST, L('tbl'), St(r0)).get(r0), ([repr(asm['Lwco'](r0, L('tbl'), St(r0)))], repr(St(r0)))),
+        # destination register == address register: the load is what narrows / dereferences, it is never redundant
+        ('StateByte.get aliased', lambda: asm['StateByte'](r0).get(r0), ([repr(asm['Lbs'](r0, r0))], repr(St(r0)))),
+        ('ConstByte.get aliased', lambda: asm['ConstByte'](r0).get(r0), ([repr(asm['Lbc'](r0, r0))], repr(St(r0)))),
+        ('Indirect.get aliased', lambda: asm['Indirect'](S.STATE, St(r0), IL(0)).get(r0), ([repr(asm['Lwso'](r0, St(r0), IL(0)))], repr(St(r0)))),
+        ('IndirectByte.get aliased', lambda: asm['IndirectByte'](S.STATE, St(r0), St(r0)).get(r0),
+         ([repr(asm['Lbso'](r0, St(r0), St(r0)))], repr(St(r0)))),
+        ('StateByte.set aliased', lambda: asm['StateByte'](r0).set(St(r0)), ([repr(asm['Sbs'](r0, St(r0)))], 'None')),
+        ('State.to same register', lambda: St(r0).to(r0), ([], 'None')),
         ('IntLiteral.get', lambda: IL(4).get(r0), ([], repr(IL(4)))),
         ('IntLiteral.to', lambda: IL(4).to(r0), ([repr(asm['Mov'](r0, IL(4)))], 'None')),
     ]
